@@ -1,0 +1,9 @@
+//go:build verif
+
+package task
+
+// Machine-checked contracts (read by /verif/engine; comment-only, compiled only with -tags verif).
+//
+// ---- guarded-by declarations (C20) ----
+//@ guarded Periodic.timer by access
+//@ guarded Periodic.running by access
